@@ -28,7 +28,7 @@ from mpsim.core import HarnessError, SimAbort, canon, derive_rng, sha  # noqa: E
 
 ENGINE_OF = {
     "C01": "evalsim", "C14": "evalsim",
-    "C02": "modelsim", "C09": "modelsim", "C12": "modelsim", "C13": "modelsim",
+    "C02": "modelsim", "C09": "immutsim", "C12": "modelsim", "C13": "modelsim",
     "C11": "histsim_parse", "C19": "histsim_registry", "C20": "histsim_params",
     "C17": "iosim_csv", "C18": "iosim_netcdf",
 }
@@ -39,7 +39,8 @@ LEVEL_OF = {
 }
 DET_SLICE = 40
 WALL_CAP = {"quick": 420.0, "thorough": 5400.0}
-MAX_SIGS_MINIMISED = 24
+MAX_SIGS_MINIMISED = 8
+MAX_SIGS_REPORTED = 12
 SHRINK_EXEC_BUDGET = 2000
 SHRINK_WALL = 90.0
 
@@ -331,11 +332,20 @@ def cmd_check(args):
             if cur is None or v["size"] < cur["size"]:
                 by_sig[v["sig"]] = v
         reported, known_hits, unverifiable = [], [], []
-        for n_done, (sig, v) in enumerate(sorted(by_sig.items())):
+        # smallest scenarios first; beyond MAX_SIGS_REPORTED unknown signatures the rest is only counted
+        ranked = sorted(by_sig.items(), key=lambda kv: (kv[1]["size"], kv[0]))
+        n_unknown = 0
+        skipped_sigs = []
+        for n_done, (sig, v) in enumerate(ranked):
             is_known = (prop, sig) in known
+            if not is_known:
+                n_unknown += 1
+                if n_unknown > MAX_SIGS_REPORTED:
+                    skipped_sigs.append(sig)
+                    continue
             if is_known:
                 known_hits.append((sig, known[(prop, sig)], v))
-            if n_done >= MAX_SIGS_MINIMISED and not is_known:
+            if n_unknown > MAX_SIGS_MINIMISED and not is_known:
                 mini = None
             else:
                 try:
@@ -430,6 +440,8 @@ def cmd_check(args):
     for sig, path, v in reported:
         print("violation signature: %s (%d runs) - %s" % (sig, total["sig_counts"].get(sig, 0), v["detail"][:300]))
         print("VIOLATION property=%s replay=%s" % (prop, path))
+    if skipped_sigs:
+        print("%d further violation signatures were found but not minimised: %s" % (len(skipped_sigs), "; ".join(skipped_sigs[:20])))
     if total["harness"] or truncated:
         for h in total["harness"][:5]:
             print("HARNESS-ERROR: %s\n%s" % (h["error"], h.get("traceback", "")))
